@@ -36,7 +36,9 @@ def toR (f : K → Int) (x : Option (St K × Out)) : Option (Avl.St × Out) := x
 
 theorem alloc_toSt (s : St K) : (toSt f s).alloc = (s.alloc.1, toSt f s.alloc.2) := by
   unfold St.alloc Avl.St.alloc toSt
-  cases s.free <;> rfl
+  cases s.free with
+  | cons i rest => rfl
+  | nil => simp only; cases blockItems (ipbOf s.multi * s.blocks) (ipbOf s.multi) <;> rfl
 
 theorem insertIn_toSt (s : St K) (k : K) (cell : Option (Nat × Bool)) (sub : Tree K) (mk : Nat → Tree K)
     (mk' : Nat → Avl.Tree) (hmk : ∀ id, toI f (mk id) = mk' id) (c0 : Nat) (hk : All (Pres f k) sub) :
